@@ -114,10 +114,9 @@ namespace
             runtime.__logmsg(err::ReturningEmptyArray(runtime.context_active().current_frame().diag_info_from_position()));
             return std::make_shared<d_array>();
         }
-        // Get navigation path
+        // Get navigation path, from this config up to the root
         std::vector<value> path;
-        path.push_back(nav->name);
-        while (nav->id_parent_logical != config::invalid_id)
+        while (!nav.empty())
         {
             path.push_back(nav->name);
             nav = nav.parent_logical();
